@@ -15,7 +15,24 @@ e2h = e2.spawn(c.d, [dict(title='stream-identity-K3', src=src, defs=['K=3'] + ([
 import irparse
 lib = build.lib_ir(c.d)
 unit = irparse.parse(os.path.join(c.d, 'ir', 'cmb_random.ll'))
-shared = [n for n, g in unit.globals.items() if not g['const'] and not g['external'] and not g['tls'] and not n.startswith('@.str') and n != '@sum_tolerance']
+import re
+_written = set()
+_infn = False
+for _line in open(os.path.join(c.d, 'ir', 'cmb_random.ll')):
+    if _line.startswith('define '):
+        _infn = True
+        continue
+    if _line.startswith('}'):
+        _infn = False
+        continue
+    if _infn:
+        for _g in re.findall(r'@[\w.$]+', _line):
+            # anything but being the address operand of a plain load counts as a possible write
+            if re.search(r'= load [^,]+, [^,]*\* ' + re.escape(_g) + r'(,|\s|$)', _line) and _line.count(_g) == 1:
+                continue
+            _written.add(_g)
+# statics that no function of the unit ever writes are initialised data (e.g. the tolerance constant)
+shared = [n for n, g in unit.globals.items() if not g['const'] and not g['external'] and not g['tls'] and not n.startswith('@.str') and n in _written]
 viols = []
 if shared:
     viols.append({'family': 'tls', 'kind': 'assert', 'label': 'mutable generator state shared between threads', 'msg': 'non-thread-local mutable statics in cmb_random.c: ' + ', '.join(shared),
